@@ -162,6 +162,7 @@ w('''
 //@      %s
 //@   ensures [C23] keeps_queue_wf: bufWF(h)
 //@   ensures [C25] state_same: state(h) == old(state(h))
+//@   ensures [C14] retransmits_no_disconnect: h.mqttOutN == old(h.mqttOutN) || (h.mqttOutN == old(h.mqttOutN) + 1 && isMqAck(h.mqttOut[old(h.mqttOutN)]))
 //@   ensures [C16] sn_packet_resent_as_is: sn ==> h.mqttOutN == old(h.mqttOutN) && (h.snOutN == old(h.snOutN) || h.snOutN == old(h.snOutN) + 1) &&
 //@      (old(state(h)) != 2 && result == nil ==> h.snOutN == old(h.snOutN) + 1) && (h.snOutN == old(h.snOutN) + 1 ==> h.snOut[old(h.snOutN)] == pktx)
 //@   ensures [C16] dup_set: istype(pktx, *snPkts1.Publish) && old(state(h)) != 2 ==> pktx.(*snPkts1.Publish).DUPProperty.dup
